@@ -153,6 +153,28 @@ pub fn fill_fd(fd: i32) -> usize {
     n
 }
 
+/// Fill a descriptor until it would block, quickly (bulk writes first); the exact count does not
+/// matter to the caller.  The descriptor must be non-blocking.
+pub fn fill_fast(fd: i32) {
+    let big = [b'F'; 4096];
+    let mut guard = 0;
+    loop {
+        let r = unsafe { libc::write(fd, big.as_ptr() as *const _, big.len()) };
+        guard += 1;
+        if r <= 0 || guard > 100_000 {
+            break;
+        }
+    }
+    let mut guard = 0;
+    loop {
+        let r = unsafe { libc::write(fd, big.as_ptr() as *const _, 1) };
+        guard += 1;
+        if r <= 0 || guard > 100_000 {
+            break;
+        }
+    }
+}
+
 /// Number of bytes (or datagrams) readable right now, draining them.
 pub fn drain_fd(fd: i32) -> usize {
     let mut n = 0usize;
